@@ -57,6 +57,23 @@ FILES = {
     "src/parsing/fol/sigma_0/pest.rs": ["C15", "C16", "C07"],
 }
 
+# files whose behaviour only the command-line layers can observe -> python drivers run on the lane's binary
+FILES_CLI = {
+    "src/command_line/files.rs": ["C20", "C11cli"],
+    "src/command_line/procedures.rs": ["C10", "C20", "C18cli", "C16cli", "C11cli"],
+    "src/command_line/arguments.rs": ["C20", "C10", "C18cli"],
+    "src/verifying/prover/vampire.rs": ["C10"],
+    "src/verifying/prover/mod.rs": ["C10"],
+}
+CLI_CMDS = {
+    "C20": ["python3", "/verif/cli/c20_roles.py", "--tier", "quick"],
+    "C10": ["python3", "/verif/cli/c10_sched.py", "--tier", "quick"],
+    "C18cli": ["python3", "/verif/cli/c18_determinism.py", "--tier", "quick"],
+    "C16cli": ["python3", "/verif/cli/special.py", "C16", "--tier", "quick"],
+    "C11cli": ["python3", "/verif/cli/special.py", "C11", "--tier", "quick"],
+}
+FILES.update(FILES_CLI)
+
 ALL_CHECKS = ["C05", "C14", "C15", "C04", "C07", "C18", "C06", "C09", "C12", "C11", "C13", "C02", "C19", "C03", "C16", "C17", "C01", "C08"]
 
 SWAPS = [
@@ -208,17 +225,22 @@ def run_mutant(k, m, threads):
             res.update(status=verdict, detail=detail)
             return res
         env = dict(ENV, VERIF_OUT=f"{lane}/out", RAYON_NUM_THREADS=str(threads), VERIF_HANG_LIMIT="60")
-        code, out = sh(["cargo", "build", "--release", "--offline"], cwd=f"{lane}/engine", env=env, timeout=900)
-        if code != 0:
-            res.update(status="nocompile", detail="engine: " + out[-400:])
-            return res
+        if any(c not in CLI_CMDS for c in FILES[m["file"]]) or m.get("all_checks"):
+            code, out = sh(["cargo", "build", "--release", "--offline"], cwd=f"{lane}/engine", env=env, timeout=900)
+            if code != 0:
+                res.update(status="nocompile", detail="engine: " + out[-400:])
+                return res
         ran = []
         mapped = FILES[m["file"]]
         todo = mapped + [c for c in ALL_CHECKS if c not in mapped] if m.get("all_checks") else mapped
         if m.get("all_checks"):
             res["all_checks"] = True
         for cid in todo:
-            code, out = sh([f"{lane}/target-engine/release/vcheck", cid, "--tier", "quick"], env=env, timeout=900)
+            if cid in CLI_CMDS:
+                cenv = dict(env, VERIF_REPO=repo, VERIF_TARGET_REPO=f"{lane}/target-repo", VERIF_SCRATCH=f"{lane}/scratch", VERIF_NO_MERGE="1", VERIF_SKIP_LOOM="1")
+                code, out = sh(CLI_CMDS[cid], env=cenv, timeout=1200)
+            else:
+                code, out = sh([f"{lane}/target-engine/release/vcheck", cid, "--tier", "quick"], env=env, timeout=900)
             ran.append((cid, code))
             if code == 1:
                 first = ""
@@ -313,6 +335,28 @@ def main():
                     print(f'[{k}] {r["status"]:9} {r["file"]}:{r["line"]} {r["op"]} {r.get("by","")} {r["seconds"]}s', flush=True)
         with ThreadPoolExecutor(max_workers=lanes) as pool:
             list(pool.map(worker, range(lanes)))
+    elif cmd == "selftest":
+        # a lane must be neutral: on the UNMUTATED tree every check has to exit 0 there, otherwise every
+        # mutant would look "caught" for a reason that has nothing to do with it
+        lane = setup_lane(0)
+        repo = f"{lane}/repo"
+        env = dict(ENV, VERIF_OUT=f"{lane}/out", RAYON_NUM_THREADS="16", VERIF_HANG_LIMIT="60")
+        code, out = sh(["cargo", "build", "--release", "--offline"], cwd=f"{lane}/engine", env=env, timeout=1800)
+        print("engine build", code, flush=True)
+        bad = 0
+        for cid in ALL_CHECKS + list(CLI_CMDS):
+            if cid in CLI_CMDS:
+                cenv = dict(env, VERIF_REPO=repo, VERIF_TARGET_REPO=f"{lane}/target-repo", VERIF_SCRATCH=f"{lane}/scratch", VERIF_NO_MERGE="1", VERIF_SKIP_LOOM="1")
+                code, out = sh(CLI_CMDS[cid], env=cenv, timeout=1800)
+            else:
+                code, out = sh([f"{lane}/target-engine/release/vcheck", cid, "--tier", "quick"], env=env, timeout=1800)
+            nviol = len(re.findall(r"^VIOLATION", out, re.M))
+            print(f"selftest {cid:7} exit={code} violations={nviol}", flush=True)
+            if code != 0:
+                bad += 1
+                print(out[-600:])
+        print("SELFTEST", "OK" if bad == 0 else f"FAILED ({bad} checks not neutral in a lane)")
+        sys.exit(0 if bad == 0 else 1)
     elif cmd == "summary":
         rows = [json.loads(l) for l in open(f"{OUT}/results.jsonl")]
         latest = {}
